@@ -161,7 +161,17 @@ def corpus_facts(tier="quick"):
             return d, json.load(open(os.path.join(d, "report.json")))
         shutil.rmtree(d, ignore_errors=True)
         os.makedirs(d)
-        rep = C.build(d, tier)
+        gdir = None
+        if tier == "thorough":
+            # quick corpus + the committed generated corpus, merged into one directory for the harness's build script
+            gdir = os.path.join(CACHE, "grammars-thorough")
+            shutil.rmtree(gdir, ignore_errors=True)
+            os.makedirs(gdir)
+            for src in (os.path.join(CORPUS, "grammars"), os.path.join(CORPUS, "thorough")):
+                for f in sorted(os.listdir(src)):
+                    if f.endswith(".llw"):
+                        shutil.copyfile(os.path.join(src, f), os.path.join(gdir, f))
+        rep = C.build(d, tier, grammars_dir=gdir)
         json.dump(rep, open(os.path.join(d, "report.json"), "w"), indent=1)
         open(ok, "w").write("ok\n")
         return d, rep
